@@ -13,6 +13,9 @@ SLOT_OF = {'Conjunction': 'conjunction', 'Disjunction': 'disjunction', 'Implies'
 
 
 def check(ix, rep):
+    from sa.rules import round11 as _r11
+    rep.floor('calls of set_ast inside the interpreter classes', _r11.check_set_ast_callers(ix, rep), 1)
+    rep.floor('sites that clear the ast-installed flag', _r11.check_set_ast_flag_writers(ix, rep), 1)
     mon = {m.kind: m for m in M.standard_monitors(ix)}['dense-online']
     ops = exh.constructed_operations(ix, mon)
     # 0. every operation is stepped exactly once per update: a second step appends the same chunk twice to its buffers
